@@ -151,6 +151,8 @@ Record oracles := {
   (* RSA op key .encrypt/.decrypt(data, padding): key handle, padding name, data *)
   o_rsa_enc : bytes -> str -> bytes -> res bytes;
   o_rsa_dec : bytes -> str -> bytes -> res bytes;
+  (* key_size of the RSA op key (bits), asked by encrypt_cek *)
+  o_rsa_bits : bytes -> res N;
   (* PBKDF2HMAC(hash, length, salt, iterations).derive(key): hash key salt count len *)
   o_pbkdf2 : str -> bytes -> bytes -> pv -> N -> res bytes;
   (* ConcatKDFHash(hash, length, otherinfo).derive(z): hash z otherinfo len *)
@@ -204,6 +206,8 @@ Definition table_oracles (t : otable) : oracles := {|
   o_kw_unwrap k e := as_obytes (olookup t (s_ "kw_unwrap") [PBytes k; PBytes e]);
   o_rsa_enc k p d := as_bytes (olookup t (s_ "rsa_enc") [PBytes k; PStr p; PBytes d]);
   o_rsa_dec k p d := as_bytes (olookup t (s_ "rsa_dec") [PBytes k; PStr p; PBytes d]);
+  o_rsa_bits k := match olookup t (s_ "rsa_bits") [PBytes k] with
+                  | Ok (PInt z) => Ok (Z.to_N z) | Ok _ => Err EOracleMiss | Err e => Err e end;
   o_pbkdf2 h k s c l := as_bytes (olookup t (s_ "pbkdf2") [PStr h; PBytes k; PBytes s; c; PInt (Z.of_N l)]);
   o_ckdf h z oi l := as_bytes (olookup t (s_ "ckdf") [PStr h; PBytes z; PBytes oi; PInt (Z.of_N l)]);
   o_ecdh a b := as_bytes (olookup t (s_ "ecdh") [PBytes a; PBytes b]);
